@@ -113,11 +113,12 @@ bool CodeWriterUtils::encode_offset32(uint32_t* dst, int64_t offset64, const Off
       uint32_t ja = ((~value >> 23) ^ (value >> 22)) & 1u;
       uint32_t jb = ((~value >> 23) ^ (value >> 21)) & 1u;
 
-      *dst = ia | ib | ic | (ja << 14) | (jb << 11);
+      // J1 is bit 13 and J2 is bit 11 of the second half-word (bit 14 distinguishes B.W from BL).
+      *dst = ia | ib | ic | (ja << 13) | (jb << 11);
       return true;
     }
 
-    // Opcode: {....|.|imm[19]|....|imm[16:11]|..|ja|.|jb|imm[10:0]}
+    // Opcode: {....|.|imm[19]|....|imm[16:11]|..|imm[17]|.|imm[18]|imm[10:0]}
     case OffsetType::kThumb32_BCond: {
       // Sanity checks.
       if (format.value_size() != 4 || bit_count != 20 || bit_shift != 0) {
@@ -127,10 +128,11 @@ bool CodeWriterUtils::encode_offset32(uint32_t* dst, int64_t offset64, const Off
       uint32_t ia = (value & 0x0007FFu);
       uint32_t ib = (value & 0x01F800u) << (16 - 11);
       uint32_t ic = (value & 0x080000u) << (26 - 19);
-      uint32_t ja = ((~value >> 19) ^ (value >> 22)) & 1u;
-      uint32_t jb = ((~value >> 19) ^ (value >> 21)) & 1u;
+      // B<c>.W (T3) encodes imm32 = SignExtend(S:J2:J1:imm6:imm11:'0') - J1 and J2 are plain offset bits here.
+      uint32_t ja = (value >> 17) & 1u;
+      uint32_t jb = (value >> 18) & 1u;
 
-      *dst = ia | ib | ic | (ja << 14) | (jb << 11);
+      *dst = ia | ib | ic | (ja << 13) | (jb << 11);
       return true;
     }
 
